@@ -273,12 +273,12 @@ def check_solver(idx: Index, rep: Report) -> None:
             r.ok(f.fq, f"{f.loc} every enqueue request reaches the worklist")
     f = idx.func(DF, "DataFlowSolver.initialize_and_run")
     # the function and the private methods of the class it calls (one level), as written
-    bodies = [f.raw_node]
-    for c in calls_in(f.raw_node):
+    bodies = [f.as_raw().node]
+    for c in calls_in(f.as_raw().node):
         if isinstance(c.func, ast.Attribute) and unparse(c.func.value) == "self" and f.cls is not None and c.func.attr.startswith("_"):
             h = f.cls.method(c.func.attr)
             if h is not None:
-                bodies.append(h.raw_node)
+                bodies.append(h.as_raw().node)
     inits = []
     whiles = []
     for bd in bodies:
